@@ -317,6 +317,10 @@ class SymVC(BaseVC):
             self.loader.add_stub(spec, f)
         STUBBED.add(spec)
 
+    def install(self, spec, f):
+        """contract stub that also exists natively (ConcVC.install patches the real module for the run)"""
+        self.stub(spec, f)
+
     def cls(self, spec, **kw):
         return self.loader.cls(spec, **kw)
 
@@ -505,6 +509,56 @@ class ConcVC(BaseVC):
     def stub(self, spec, f):
         pass
 
+    def install(self, spec, f):
+        """native counterpart of a contract stub: the collaborator is patched into the real modules/classes for the duration of this run,
+        so the same harness text drives the real compiled code (undone by close())"""
+        import sys
+        mod, qual = spec.split(":")
+        m = importlib.import_module(mod)
+        if qual.startswith("@"):
+            self._patch(m, qual[1:], f)
+            return
+        setter = qual.endswith("#setter")
+        parts = qual.replace("#setter", "").split(".")
+        if len(parts) == 1:
+            real = getattr(m, parts[0])
+            for mm in list(sys.modules.values()):
+                if mm is not None and getattr(mm, "__name__", "").startswith("resonaate"):
+                    for k, v in list(vars(mm).items()):
+                        if v is real:
+                            self._patch(mm, k, f)
+            return
+        owner = m
+        for part in parts[:-1]:
+            owner = getattr(owner, part)
+        cur = owner.__dict__.get(parts[-1])
+        new = f
+        if isinstance(cur, property):
+            new = property(cur.fget, f, cur.fdel) if setter else property(f, cur.fset, cur.fdel)
+        elif isinstance(cur, staticmethod):
+            new = staticmethod(f)
+        elif isinstance(cur, classmethod):
+            new = classmethod(f)
+        self._patch(owner, parts[-1], new)
+
+    _MISSING = object()
+
+    def _patch(self, obj, name, val):
+        undo = self.__dict__.setdefault("_undo", [])
+        undo.append((obj, name, obj.__dict__.get(name, self._MISSING)))
+        setattr(obj, name, val)
+
+    def close(self):
+        for obj, name, old in reversed(self.__dict__.get("_undo", [])):
+            if old is self._MISSING:
+                try:
+                    delattr(obj, name)
+                except AttributeError:
+                    pass
+            else:
+                setattr(obj, name, old)
+        self.__dict__["_undo"] = []
+
     def fn(self, spec):
         mod, qual = spec.split(":")
         o = importlib.import_module(mod)
@@ -512,6 +566,8 @@ class ConcVC(BaseVC):
             o = getattr(o, part)
         if isinstance(o, property):
             return o.fget
+        if type(o).__name__ == "RemoteFunction" and hasattr(o, "_function"):
+            return o._function  # ray remote function: the plain Python function the workers execute
         return o
 
     def cls(self, spec, **kw):
@@ -995,6 +1051,8 @@ def run_concrete(h, values=None, seed=0, n=1):
         except Exception as e:  # real code raised outside what the contract allows
             errors.append((repr(e), dict(vc.inputs)))
             continue
+        finally:
+            vc.close()
         for name in vc.failed:
             fails.append((name, dict(vc.inputs)))
     return ran, fails, errors
